@@ -121,6 +121,8 @@ pub struct CaseA {
     /// stop (and drop) after the root yielded this many items (never-ending streams, C17)
     pub max_yields: Option<usize>,
     pub spurious: u32,
+    /// the (flat, array or Vec) root is built over leaf types without drop glue
+    pub plain: bool,
 }
 
 fn pick<T: Clone>(w: &mut World, v: &[T]) -> T {
@@ -320,7 +322,14 @@ pub fn gen_case(w: &mut World, p: &Profile) -> CaseA {
     }
     let cancel_at = if w.chance(p.cancel_pct) { Some(w.below(7)) } else { None };
     let max_yields = if !always.is_empty() { Some(6 * nl + w.below(2 * nl + 1)) } else { None };
-    CaseA { shape, leaves, cancel_at, max_yields, spurious: p.spurious }
+    let plain = !p.small && !shape.nested() && plain_supported(shape.fam, shape.cont, shape.kids.len()) && w.chance(15);
+    if plain {
+        w.st.plain_cases += 1;
+        for l in leaves.iter_mut() {
+            l.wake_on_drop = false; // no destructor to wake from
+        }
+    }
+    CaseA { shape, leaves, cancel_at, max_yields, spurious: p.spurious, plain }
 }
 
 #[derive(Default, Debug)]
@@ -356,7 +365,7 @@ pub fn describe_case(c: &CaseA) -> String {
         .iter()
         .map(|l| if l.always_ready { "[Item*]".to_string() } else { format!("{:?}{}", l.script.iter().take(10).collect::<Vec<_>>(), if l.wake_on_drop { "+wake-on-drop" } else { "" }) })
         .collect();
-    format!("shape={} cancel_at={:?} scripts={}", c.shape.describe(), c.cancel_at, scripts.join(" "))
+    format!("shape={}{} cancel_at={:?} scripts={}", c.shape.describe(), if c.plain { " (children without drop glue)" } else { "" }, c.cancel_at, scripts.join(" "))
 }
 
 pub const STEP_CAP: usize = 6000;
@@ -397,7 +406,7 @@ pub fn run_case(p: &Profile, case: &CaseA) -> ExecOut {
         w.root = Some(0);
         w.small_mode = p.small;
     });
-    let mut b = Builder { scripts: VecDeque::from(case.leaves.clone()) };
+    let mut b = Builder { scripts: VecDeque::from(case.leaves.clone()), plain: case.plain };
     let built = std::panic::catch_unwind(std::panic::AssertUnwindSafe(|| if case.shape.fam.is_stream() { Root::S(b.build_str(&case.shape, None)) } else { Root::F(b.build_fut(&case.shape, None)) }));
     w(|w| w.phase = Phase::Idle);
     let root_prop = case.shape.fam.prop();
@@ -652,7 +661,7 @@ pub fn finish(out: &mut ExecOut, dropper: Option<Box<dyn FnOnce()>>, received: V
             }
             // structured ownership: nothing the combinator owned outlives it (wakers are still alive here)
             for i in 0..w.ch.len() {
-                if w.ch[i].created && w.ch[i].dropped == 0 {
+                if w.ch[i].created && w.ch[i].dropped == 0 && !w.ch[i].plain {
                     // C06: "the losing children ... are dropped, unfinished, together with the race future"
                     let mut props: Vec<&'static str> = vec!["C02"];
                     if let Some((p, _)) = w.ch[i].parent {
